@@ -3,7 +3,7 @@
 # evidence/ conflicts are resolved in favour of /verif (evidence is rewritten by the checks anyway)
 G=$1
 cd /verif || exit 2
-git fetch -q /tmp/impl/$G/verif HEAD:refs/heads/impl-$G -f || exit 2
+git fetch -q ${IMPLDIR:-/tmp/impl}/$G/verif HEAD:refs/heads/impl-$G -f || exit 2
 git merge --no-edit -q impl-$G 2>&1 | tail -5
 for f in $(git diff --name-only --diff-filter=U | grep '^evidence/'); do git checkout --ours -- $f; git add $f; done
 U=$(git diff --name-only --diff-filter=U)
